@@ -7,6 +7,9 @@
 //         {o:"restart"}             destroy the sink and create a new one on the same directory
 //         {o:"flush"}               flush
 //         {o:"plant", name}         create a foreign file with a look-alike name
+//         {o:"twin"}                give the newest rotated file its plain / compressed twin (what a process killed between completing
+//                                   the .gz and removing the original leaves behind - see C10); the file-count bound is then due again
+//                                   with the next rotation (retention runs when the sink rotates)
 // Oracle: after every (flushed) operation the directory is read back (every *.gz through zlib's
 //         gzip decoder) and compared with the stream of records written so far; see the
 //         invariants tagged C05..C09 in check(). VERIF_PROP selects which property's invariant
@@ -151,6 +154,8 @@ QJsonObject generate()
             o["o"] = "restart";
         } else if (k < wShare + advShare + restartShare + flushShare) {
             o["o"] = "flush";
+        } else if (compress && chance(30)) {
+            o["o"] = "twin"; // leftover of an interrupted compression: the newest rotated generation exists plain AND compressed
         } else {
             o["o"] = "plant";
             o["which"] = pick(0, 11);
@@ -238,6 +243,9 @@ struct World
     std::map<std::string, long long> maxIndexForDate;
     std::set<std::string> prevKeys;
     std::map<std::string, std::string> planted;        // name -> content
+    std::set<std::string> twinKeys;                    // "date.index" of generations the harness duplicated (plain + .gz)
+    bool countSuspended = false;                       // a twin was planted and the sink has not rotated since
+    int twinsPlanted = 0, twinsSeenByRetention = 0;
     // statistics
     int rotations = 0, removals = 0, restarts = 0, dayChangesWithData = 0, ambiguous = 0, gzFiles = 0, maxIndex = 0;
     bool boundaryHit = false, multiByte = false, tieRotations = false, restartAfterDayChange = false, removalBeforeLaterRotationSameDate = false;
@@ -339,6 +347,21 @@ bool check(World &w, std::vector<FileSnap> &files, bool afterWrite, Violation &v
         return x->gz < y->gz;
     });
     const long long total = (long long)w.recs.size();
+    // harness-made twins: one generation, two files with the same records. Both count as log files (C06), one of them stands for
+    // the generation everywhere else.
+    int twinExtras = 0;
+    for (size_t i = 0; i + 1 < rot.size();) {
+        FileSnap *x = rot[i], *y = rot[i + 1];
+        if (x->date == y->date && x->index == y->index && w.twinKeys.count(x->date + "." + std::to_string(x->index)) && (!y->gz || y->gzValid) && x->content == y->content) {
+            rot.erase(rot.begin() + long(i) + 1);
+            twinExtras++;
+        } else {
+            i++;
+        }
+    }
+    bool newKeyAppeared = false;
+    for (auto *f : rot) if (!w.seenKeys.count(f->date + "." + std::to_string(f->index))) newKeyAppeared = true;
+    if (w.countSuspended && newKeyAppeared) { w.countSuspended = false; w.twinsSeenByRetention++; }
 
     // ---- C06: planted look-alikes are never touched ----
     for (auto &pl : w.planted) {
@@ -430,8 +453,8 @@ bool check(World &w, std::vector<FileSnap> &files, bool afterWrite, Violation &v
 
     // ---- C06: count limit, survivors = most recent contiguous stretch ----
     if (w.N == 1 && !rot.empty()) { v = { "C06", "rotated file '" + rot[0]->name + "' exists although the file-count limit is 1" }; return false; }
-    if (w.N >= 2 && afterWrite) {
-        const int count = int(rot.size()) + (active ? 1 : 0);
+    if (w.N >= 2 && afterWrite && !w.countSuspended) {
+        const int count = int(rot.size()) + twinExtras + (active ? 1 : 0);
         if (count > w.N) { v = { "C06", std::to_string(count) + " log files exist after a write, limit is " + std::to_string(w.N) }; return false; }
     }
     {
@@ -620,6 +643,48 @@ std::string run(const QJsonObject &c)
         } else if (k == "flush") {
             sink->flush();
             pendingUnflushed = false;
+        } else if (k == "twin") {
+            // newest rotated generation (by date, index) gets its missing plain / compressed sibling
+            std::string bestName, bestDate;
+            long long bestIdx = -1;
+            bool bestGz = false, hasSibling = false;
+            for (const std::string &n : listDir(dir)) {
+                std::string d0; long long i0; bool g0;
+                if (!w.scheme.parse(n, &d0, &i0, &g0)) continue;
+                if (bestName.empty() || d0 > bestDate || (d0 == bestDate && i0 > bestIdx)) { bestName = n; bestDate = d0; bestIdx = i0; bestGz = g0; hasSibling = false; }
+                else if (d0 == bestDate && i0 == bestIdx) hasSibling = true;
+            }
+            if (!w.compress || bestName.empty() || hasSibling) { now += 2; verif_clock_set(now); continue; }
+            std::string raw, plain, err;
+            readWhole(dir + "/" + bestName, raw);
+            std::string sibling, siblingBytes;
+            if (bestGz) {
+                if (!gunzipStrict(raw, plain, err)) { now += 2; verif_clock_set(now); continue; } // left to the gzip invariant
+                sibling = bestName.substr(0, bestName.size() - 3);
+                siblingBytes = plain;
+            } else {
+                sibling = bestName + ".gz";
+                z_stream z;
+                memset(&z, 0, sizeof z);
+                deflateInit2(&z, Z_DEFAULT_COMPRESSION, Z_DEFLATED, 16 + MAX_WBITS, 8, Z_DEFAULT_STRATEGY);
+                siblingBytes.resize(deflateBound(&z, uLong(raw.size())) + 64);
+                z.next_in = reinterpret_cast<Bytef *>(const_cast<char *>(raw.data()));
+                z.avail_in = uInt(raw.size());
+                z.next_out = reinterpret_cast<Bytef *>(&siblingBytes[0]);
+                z.avail_out = uInt(siblingBytes.size());
+                deflate(&z, Z_FINISH);
+                siblingBytes.resize(siblingBytes.size() - z.avail_out);
+                deflateEnd(&z);
+            }
+            FILE *f = fopen((dir + "/" + sibling).c_str(), "wb");
+            if (f) {
+                fwrite(siblingBytes.data(), 1, siblingBytes.size(), f);
+                fclose(f);
+                w.twinKeys.insert(bestDate + "." + std::to_string(bestIdx));
+                w.countSuspended = true;
+                w.twinsPlanted++;
+            }
+            if (pendingUnflushed) observed = false;
         } else if (k == "plant") {
             std::string name;
             plantName(w, o["which"].toInt(), name);
@@ -688,6 +753,7 @@ std::string run(const QJsonObject &c)
     cls("restart_after_day_change", w.restartAfterDayChange);
     cls("removal_before_later_rotation_same_date", w.removalBeforeLaterRotationSameDate);
     cls("foreign_files_planted", !w.planted.empty());
+    cls("interrupted_compression_twin_present_at_a_later_rotation", w.twinsSeenByRetention > 0);
     cls("metachar_file_name", w.fileName != "app.log" && w.fileName != "applog");
     cls("gz_content>8KiB", w.sawCompressedBig8k);
     cls("gz_content>64KiB", w.sawCompressedBig64k);
